@@ -83,6 +83,7 @@ var c20LPInputs = []string{
 	"a\\=b\\=c v=1i 1700000000000000011\nplain v=2i 1700000000000000012\n",
 	"plain v=2i 1700000000000000012\na\\=b v=1i 1700000000000000011\n",
 	"m,a=1,b=2 message=\"has message\",v=9223372036854775807i 1\n",
+	"m\x1b[1m,host=h\x1b[31mred\x1b[0m v=\"a\x1b]0;t\x07b\",w\x1b[m=1i 1700000000000000013\n",
 }
 var c20LPBodies = []struct{ Name, Text string }{
 	{"untouched", "add_key(nk, 7)\n"},
@@ -109,7 +110,10 @@ func c20LPCase(i int64) c20Case {
 // several - x bodies that pass the message through / measure it / cut it
 // x {json, lineprotocol} x {workspace, single file}: the script sees, and the
 // output shows, the bytes of the file.
-var c20TextInputs = []string{"caf\xe9 au lait", "cut off \xe4\xb8", "\xff\xfe\xfd three", "a\xc3", "nul\x00inside", "cr\r\nlf\n", "\ufeffbom first", "tab\tand  spaces ", "trailing\n\n\n", "é世😀 valid", "\xed\xa0\x80 surrogate", "x"}
+var c20TextInputs = []string{"caf\xe9 au lait", "cut off \xe4\xb8", "\xff\xfe\xfd three", "a\xc3", "nul\x00inside", "cr\r\nlf\n", "\ufeffbom first", "tab\tand  spaces ", "trailing\n\n\n", "é世😀 valid", "\xed\xa0\x80 surrogate", "x",
+	// control bytes and the sequences terminals, pagers and log viewers interpret
+	"\x1b[31mred\x1b[0m plain", "\x1b]0;title\x07after", "lone \x1b esc \x1b[", "\x1b[2J\x1b[H", "bs\x08\x08 del\x7f bel\x07 ff\x0c vt\x0b", "\x01\x02\x03\x04\x05\x06\x0e\x0f\x10\x1a\x1c\x1f",
+	"c1 \u009b31m csi \u0085 nel", "\u2028 ls \u2029 ps \u202e rtl \u200b zw", "\x1b[38;5;196mx\x1b[m\x1b(B", "\x1bPdcs\x1b\\ \x1b^pm\x1b\\ \x1b_apc\x1b\\"}
 var c20TextBodies = []struct{ Name, Text string }{
 	{"pass-through", "add_key(nk, 1)\n"},
 	{"measure", "add_key(n, len(_))\nadd_key(head, _[0:3])\nadd_key(tail, _[-2:])\n"},
